@@ -113,6 +113,10 @@ def resolve(name, params, d, rng):
         B = rng.randint(-3, 4, size=(nb, d))
         B[np.all(B == 0, axis=1), 0] = 1
       out[key] = layout(B)
+      if rng.randint(4) == 0:
+        # with an array basis the number of bases is the number of its rows;
+        # whatever n_basis says in addition is documented as derived from it
+        out['n_basis'] = [None, nb + 2, max(1, nb - 2)][int(rng.randint(3))]
     elif val == 'inf':
       out[key] = np.inf
   return out
